@@ -42,11 +42,11 @@ func (C15) Generate(r *core.Rand, tier string, idx int) *core.Scenario {
 	if r.P(1, 6) {
 		sc.Cfg["uidabove"] = 1 // UID n:* with n above the highest UID (sent, not judged)
 	}
-	// input classes that trigger separately reported defects: off in most runs
+	// input classes whose defects were repaired (see known_findings.json): each in half of the runs
 	for _, k := range []struct {
 		name string
 		den  int
-	}{{"tz", 10}, {"duphdr", 10}, {"hdrempty", 10}, {"emptyuid", 10}, {"charsetx", 12}, {"baddate", 10}} {
+	}{{"tz", 2}, {"duphdr", 2}, {"hdrempty", 2}, {"emptyuid", 2}, {"charsetx", 2}, {"baddate", 2}} {
 		if r.P(1, k.den) {
 			sc.Cfg[k.name] = 1
 		}
@@ -878,7 +878,17 @@ func (x *c15Run) search(a core.Action) {
 		}
 		before, on, since := c15SetOf(rs[0]), c15SetOf(rs[1]), c15SetOf(rs[2])
 		e.St.Checks++
+		undated := map[uint32]bool{} // no date-time in the Date header: no SENT* key is judged
+		for j := range x.view.Rows {
+			if rw := &x.view.Rows[j]; ks[0].Eval(&x.view, rw) == triU {
+				undated[uint32(rw.Seq)] = true
+			}
+		}
 		for i := uint32(1); i <= n; i++ {
+			if undated[i] {
+				e.St.Probes["date_triple_undated_row"]++
+				continue
+			}
 			if before[i] == since[i] || (on[i] && !since[i]) {
 				e.FailSig("algebra-date", "date", "SEARCH %s returned %v, SEARCH %s returned %v, SEARCH %s returned %v: sequence number %d is in both or neither of the first and the third, or in the second but not the third", ks[0].String(), rs[0], ks[1].String(), rs[1], ks[2].String(), rs[2], i)
 				return
